@@ -1,5 +1,5 @@
 use jrsonnet_evaluator::{
-	bail,
+	bail, in_description_frame,
 	manifest::{escape_string_json_buf, ManifestFormat, ToStringFormat},
 	Result, Val,
 };
@@ -35,7 +35,10 @@ impl ManifestFormat for PythonFormat {
 					if i != 0 {
 						buf.push_str(", ");
 					}
-					self.manifest_buf(el, buf)?;
+					in_description_frame(
+						|| format!("elem <{i}> manifestification"),
+						|| self.manifest_buf(el, buf),
+					)?;
 				}
 				buf.push(']');
 			}
@@ -52,8 +55,11 @@ impl ManifestFormat for PythonFormat {
 					}
 					escape_string_json_buf(&field, buf);
 					buf.push_str(": ");
-					let value = obj.get(field)?.expect("field exists");
-					self.manifest_buf(value, buf)?;
+					let value = obj.get(field.clone())?.expect("field exists");
+					in_description_frame(
+						|| format!("field <{field}> manifestification"),
+						|| self.manifest_buf(value, buf),
+					)?;
 				}
 				buf.push('}');
 			}
